@@ -2,6 +2,7 @@
 package gen
 
 import (
+	"regexp"
 	"fmt"
 	"math/rand/v2"
 	"strconv"
@@ -611,3 +612,25 @@ func firstNonCore(s string) int {
 	}
 	return i
 }
+
+// MavenConventional reports the conventional shapes C12 claims: N(.N){0,3} optionally followed by
+// one group joined by '.' or '-': a qualifier alone, a qualifier with a number glued or joined by
+// '.'/'-', or a bare build number. Bare single-letter aliases (a, b, m not directly followed by a
+// digit) are excluded.
+func MavenConventional(s string) bool {
+	m := mavenConv.FindStringSubmatch(s)
+	if m == nil {
+		return false
+	}
+	q := strings.ToLower(m[1])
+	if len(q) == 1 && (q == "a" || q == "b" || q == "m") {
+		// alias only when glued to a digit
+		return m[2] != "" && m[2][0] >= '0' && m[2][0] <= '9'
+	}
+	return true
+}
+
+var mavenConv = regexp.MustCompile(`^[0-9]+(?:\.[0-9]+){0,3}(?:[.-](?:([A-Za-z]+)((?:[.-]?[0-9]+)?)|[0-9]+))?$`)
+
+// Pick returns one of xs.
+func Pick(r *rand.Rand, xs ...string) string { return xs[r.IntN(len(xs))] }
